@@ -267,7 +267,16 @@ func runC11(b *runner.Batch) {
 					u = append(u, adm)
 				}
 				oldAdmin := st.admin
-				res := run(e.opSetAdmin(name, e.users[adm].hash), u, c, a, m, rn+map[bool]string{true: "+new-admin", false: "-without-new-admin"}[with])
+				var res *opResult
+				if r.IntN(5) == 0 {
+					// the admin is dismissed (Null): nobody else has to witness, and the dismissed one is a former admin
+					res = run(e.opSetAdmin(name, nil), users, c, a, m, rn+"-dismissal")
+					if res.applied && oldAdmin != nil {
+						b.Hit("admin-dismissed")
+					}
+				} else {
+					res = run(e.opSetAdmin(name, e.users[adm].hash), u, c, a, m, rn+map[bool]string{true: "+new-admin", false: "-without-new-admin"}[with])
+				}
 				if res.applied && oldAdmin != nil && !bytes.Equal(oldAdmin, st.admin) {
 					h.formerAdmin[name] = oldAdmin
 				}
